@@ -788,6 +788,15 @@ def _fresh(run, P):
             if isinstance(x, ast.AugAssign) and dotted(x.target) == "self._seen_var_names":
                 seen_src |= {n_.id for n_ in ast.walk(x.value) if isinstance(n_, ast.Name)}
         ok_feed = bool(feeds) and bool(seen_src) and seen_src <= names_fed
+        # ... or the set of seen names *is* the generator's own set: bound to it once, in
+        # __init__, and only ever updated in place (|=, add, update) afterwards
+        C_ = P.cls(CB)
+        binds = [(m_, x) for m_ in C_.methods.values() for x in ast.walk(m_.node)
+                 if isinstance(x, ast.Assign) and any(dotted(t_) == "self._seen_var_names" for t_ in x.targets)]
+        shared = len(binds) == 1 and binds[0][0].name == "__init__" \
+            and dotted(binds[0][1].value) == f"{gen}.existing_names"
+        if shared and seen_src:
+            ok_feed = True
         run.ob("C02.fresh", add, feeds[0] if feeds else add.node, ok_feed,
                construct=f"every name _add_statement records as seen ({sorted(seen_src)}) is also "
                          f"entered into {gen}" + ("" if feeds else " (no add_names call)"),
